@@ -204,6 +204,16 @@ def execOp (line : String) : String :=
     | "rt" => withPkts rtLine
     | "reenc" => withHex reencLine
     | "relay" => withHex relayLine
+    | "crt" => withPkts fun ps =>
+        match cenc ps with
+        | .ok b => match cdec b with
+          | .ok qs => s!"ok {hexOf b} ; {packetsStr qs}"
+          | .err => s!"ok {hexOf b} ; err"
+          | .panic => "panic"
+          | .diverge => "diverge"
+        | .err => "err"
+        | .panic => "panic"
+        | .diverge => "diverge"
     | "reuse" => match args with
         | [_, hb] => match unhex hb with
           | some b =>
